@@ -229,7 +229,7 @@ PROPS = {
                         'String::join with the delimiter and the write of the header line (std)'],
     },
     'C04': {
-        'units': ['oligo_vec', 'float_kani', 'ctor'], 'deps': ['kmer_gen', 'posmaps', 'mmap_rows', 'batch_loops'], 'replay': 'c04,c13',
+        'units': ['oligo_vec', 'float_kani', 'ctor'], 'deps': ['kmer_gen', 'posmaps', 'mmap_rows', 'batch_loops', 'reader_glue'], 'replay': 'c04,c13',
         'level_text': 'Verus proves for the verbatim accumulation loop (three copies: oligo.rs vectorise_one, oligocgr.rs seq_to_kmer, pybindings vectorise_one), '
                       'every byte string shorter than 2^53 and every k in 1..=15: the row has one value per canonical column and column i holds of_nat(number of valid '
                       'windows whose canonical code is the column k-mer), raw, or divided by fmax(1, total valid windows) when normalised (all-zero row when there is no window); '
@@ -252,7 +252,7 @@ PROPS = {
         'not_reached': ['the glue between the lifted fragments (closure captures, `let header_len = header.len()`, the Mutex-guarded record hand-out)', 'unsafe pointer copy inside MMWriter::write_at; memmap2'],
     },
     'C11': {
-        'units': ['cgr', 'float_kani', 'batch_loops', 'cli_wiring'], 'deps': [], 'replay': 'c11,c13',
+        'units': ['cgr', 'float_kani', 'batch_loops', 'cli_wiring'], 'deps': ['reader_glue'], 'replay': 'c11,c13',
         'level_text': 'Verus proves for the verbatim cgr_maps (both copies) and vectorise_one (core and Python binding), for every byte string: the corner table is exactly '
                       '{A,a->(0,0); C,c->(0,S); G,g->(S,S); T,t,U,u->(S,0)} with no other key and the centre is (S/2,S/2); Ok(v) iff every byte is a nucleotide letter, then one point per base and '
                       'point i == midpoint(corner(base i), point i-1 or centre) (so it depends only on the first i bases); any other byte gives Err and no coordinates. Spec-level lemma: every '
@@ -263,7 +263,7 @@ PROPS = {
         'not_reached': ['sub-square containment beyond one halving (j > 1) and exact dyadic values', 'file-level batching/ordering of cgr.rs::vectorise (see C05-style loop contracts if listed)', 'pyo3 mapping of Err to ValueError'],
     },
     'C08': {
-        'units': ['cov_vec', 'batch_loops', 'float_kani', 'ctor'], 'deps': ['kmer_gen', 'count_route'], 'replay': 'c08',
+        'units': ['cov_vec', 'batch_loops', 'float_kani', 'ctor'], 'deps': ['kmer_gen', 'count_route', 'reader_glue'], 'replay': 'c08',
         'level_text': 'Verus proves for the verbatim CovComputer::vectorise_one, every byte string, every k <= 31, every bin size and bin count >= 1 and every counts table: the row has '
                       'bin-count entries and entry b is of_nat(number of valid windows whose canonical k-mer has multiplicity c in the table with min(c / bin-size, bin-count - 1) == b), absent k-mers '
                       'counting 0, raw or divided by fmax(1, total); the unchecked index is in bounds. For the lifted batch loop of compute_coverages: every record is rendered exactly once, in reader order, including the final flush.',
@@ -273,7 +273,7 @@ PROPS = {
         'not_reached': ['build_table (counting and merging: C07)', 'parsing of kmers.counts', 'thread-count independence rests on rayon collect order (assumed)'],
     },
     'C16': {
-        'units': ['batch_loops', 'min_callsite', 'minimiser', 'kmer_minimiser'], 'deps': ['kmer_gen', 'oligo_vec', 'cov_vec', 'cgr', 'oligocgr_vec', 'count_route', 'mmap_rows', 'posmaps'], 'replay': 'c16',
+        'units': ['batch_loops', 'min_callsite', 'minimiser', 'kmer_minimiser'], 'deps': ['kmer_gen', 'oligo_vec', 'cov_vec', 'cgr', 'oligocgr_vec', 'count_route', 'mmap_rows', 'posmaps', 'reader_glue'], 'replay': 'c16',
         'level_text': 'Every Verus bundle includes absence of panics (overflow, out-of-bounds, unwrap on None, unreachable panic!) for ALL inputs meeting the stated precondition. For C16 the '
                       'deciding bundles are: the format-sniffing statements (3 copies) with a buffer of ANY length including 0; the four lifted batch loops (one row rendered per record, including '
                       'records with no bases and the final flush); the two minimiser call sites of misc (window size 0, record shorter than m) against the precondition of MinimiserGenerator::new; '
@@ -301,7 +301,7 @@ PROPS = {
         'not_reached': ['worker interleavings (assumed primitives)', 'container equivalence (bio/flate2)', 'closure glue between the lifted fragments'],
     },
     'C12': {
-        'units': ['oligocgr_vec', 'oligo_vec', 'header', 'cgr', 'batch_loops', 'float_kani', 'cli_wiring'], 'deps': ['kmer_gen', 'posmaps', 'n2k'], 'replay': 'c12',
+        'units': ['oligocgr_vec', 'oligo_vec', 'header', 'cgr', 'batch_loops', 'float_kani', 'cli_wiring'], 'deps': ['kmer_gen', 'posmaps', 'n2k', 'reader_glue'], 'replay': 'c12',
         'level_text': 'Verus proves for the verbatim OligoCgrComputer::vectorise_one: the row has one triple per canonical column, in column order; (x,y) is the chaos-game end point '
                       '(midpoint recurrence from the centre) of the column k-mer text - a function of the column alone, hence the same in every row - and f is exactly the value the oligo row contract (C04, '
                       'same spec, proved for seq_to_kmer) gives that column; the record is never rejected. The k-mer table, the private cgr_maps copy and the batch loop of this subcommand are under the C03/C11/C05 contracts.',
@@ -320,7 +320,7 @@ PROPS = {
         'fn_filter': r'^py::',
     },
     'C07': {
-        'units': ['count_route'], 'deps': ['kmer_gen', 'n2k'], 'replay': 'c07',
+        'units': ['count_route'], 'deps': ['kmer_gen', 'n2k', 'reader_glue'], 'replay': 'c07',
         'level_text': 'Narrow claim. Verus proves for the lifted per-record loop of count_chunk, every byte string, k <= 31 and every partition count >= 1: each valid window causes exactly one increment, of its '
                       'canonical code, in partition (code mod n_parts), nothing else in the table changes, and the unchecked partition index is in bounds; hence a k-mer lives in exactly one partition across all chunks. '
                       'ACGT rendering uses numeric_to_kmer (C02 contract).',
@@ -343,7 +343,7 @@ PROPS = {
         'not_reached': ['worker interleavings (assumed primitives)', 'text rendering and the final table dump', 'closure glue between the lifted fragments (record hand-out, progress bar)'],
     },
     'C15': {
-        'units': ['cli_wiring', 'ctor'], 'deps': ['mmap_rows', 'batch_loops'], 'replay': 'c15',
+        'units': ['cli_wiring', 'ctor'], 'deps': ['mmap_rows', 'batch_loops', 'reader_glue'], 'replay': 'c15',
         'level_text': 'Narrow claim. Verus proves for the lifted option-to-setter statements of the oligo, coverage, counter and minimiser arms of cli(), against stub computers whose setters record a ghost configuration: '
                       'csv/tsv/spc change only the delimiter (",", tab, space), the header flag only sets header, counts only flips normalisation, --acgt only sets the rendering flag, the thread option is applied iff > 0 and touches nothing else, '
                       'k / bins / memory / alt-input are passed through unchanged; and every value accepted by the clap value_parser ranges (read from the attribute text on every run) satisfies the preconditions of the library '
